@@ -27,6 +27,8 @@ type Pass1 struct {
 	AsmDB            *asmdb.InstructionDB
 	PendingLabels    map[string]bool // 分岐先として参照されたが、まだ定義されていないラベル
 	NearBranches     map[int]bool    // 前回の試行で rel8 に収まらなかった分岐 (ocode の番号) は near 形式で数える
+	Expanding        map[string]bool // 展開中の EQU 名 (循環検出用。展開していないときは nil)
+	MacroExpansions  int             // 現在の文で行った EQU 展開の回数
 }
 
 // Eval は AST を走査し、pass1 の処理を実行します。
